@@ -469,7 +469,7 @@ Section PCompositeReenc.
     destruct (size_ext sz); [|exact Hroot].
     destruct (size_in_root sz n).
     - apply psame_bind_r. exact Hroot.
-    - repeat apply psame_bind_r. exact Hall.
+    - repeat apply psame_bind_r. exact Hfrag.
   Qed.
 
   (** CHOICE *)
